@@ -63,4 +63,39 @@ example : (runG [m] GroupRec.fresh hist).map (fun ns => ns.map fun n => (n.id, n
     [[], [(some 1, some 10000, false)], [(some 1, some 10000, false)], [(some 1, some 10000, true)], [],
      [(some 5, some 50000, false)], [(some 5, some 50000, false)], [(some 5, some 50000, true)]] := by decide
 
+/-! ### the periodic refresh of the group records
+
+An incident lives in its group's record (id, start, last notifications).  The refresh that re-reads
+the group listings from storage must not disturb the record of a group that is still there — also
+when storage is too busy to take a consumer-list request within the one-second timeout. -/
+
+/-- a refresh none of whose consumer-list requests is taken changes no record of a listed cluster (it
+    only drops clusters that are no longer listed) -/
+theorem stalled_refresh_keeps_every_record (listing : List (String × List String)) (s : NState) :
+    refresh listing (fun _ => false) s = s.filter fun kv => listing.any (·.1 == kv.1.1) := by
+  unfold refresh
+  generalize (s.filter fun kv => listing.any (·.1 == kv.1.1)) = s1
+  induction listing generalizing s1 with
+  | nil => rfl
+  | cons cg rest ih => simpa [List.foldl_cons] using ih s1
+
+/-- … hence an open incident of a group in a listed cluster keeps its id and start time across it -/
+theorem stalled_refresh_keeps_incident (listing : List (String × List String)) (s : NState) (k : String × String)
+    (r : GroupRec) (hl : listing.any (·.1 == k.1) = true) (hr : lookupG k s = some r) :
+    lookupG k (refresh listing (fun _ => false) s) = some r := by
+  rw [stalled_refresh_keeps_every_record]
+  induction s with
+  | nil => simp [lookupG] at hr
+  | cons kv rest ih =>
+    obtain ⟨k', v'⟩ := kv
+    simp only [lookupG] at hr
+    by_cases hk : k' = k
+    · subst hk
+      simp only [if_true] at hr
+      simp [List.filter_cons, hl, lookupG, hr]
+    · simp only [if_neg hk] at hr
+      by_cases hf : listing.any (·.1 == k'.1) = true
+      · simp only [List.filter_cons, hf, if_true, lookupG, if_neg hk]; exact ih hr
+      · simp only [List.filter_cons, hf]; exact ih hr
+
 end Burrow.Props.C13
